@@ -14,6 +14,13 @@ DevSeq == <<"hetero", "nonebool", "strseq", "kwonlypos", "kwargsvar">>
 Devs == {DevSeq[j] : j \in DOMAIN DevSeq}
 PairLabels(P(_)) == {DevSeq[a] \o "+" \o DevSeq[b] : <<a, b>> \in
                       {q \in (DOMAIN DevSeq) \X (DOMAIN DevSeq) : q[1] < q[2] /\ P({DevSeq[q[1]], DevSeq[q[2]]})}}
+(* why a function value is outside Callable[[int]*n, int] (names the violated clause of CanCall) *)
+WhyNot(s, n) == IF n < s.mand THEN "below-mandatory-positionals"
+                ELSE IF ~s.star /\ n > s.mand + s.opt THEN "above-maximum-positionals"
+                ELSE "required-keyword-only"
+SigsOf(t) == IF t[1] = "callsig" THEN {t}
+             ELSE IF t[1] = "union" THEN {t[3][k] : k \in {j \in DOMAIN t[3] : t[3][j][1] = "callsig"}}
+             ELSE {}
 Fails(c) ==
   LET adm == Admits(c.ann, c.val) IN
   IF ~Understood(c.ann) \/ ~Judgeable(c.ann, c.val) THEN {}
@@ -27,6 +34,8 @@ Fails(c) ==
                   ex2 == PairLabels(Two) IN
               IF ex # {} THEN {"missed:" \o d : d \in ex}
               ELSE IF ex2 # {} THEN {"missed:" \o d : d \in ex2}
+              ELSE IF c.val[1] = "$def" /\ SigsOf(c.ann) # {}
+                   THEN {"missed:fn-arity:" \o WhyNot(c.val[2], Len(u[3]) - 1) : u \in SigsOf(c.ann)}
               ELSE {"missed"}
   ELSE {}
 
